@@ -7,14 +7,23 @@
 // osmjson text (write.go). Value direction: marshal → shape oracle (shape.go)
 // → unmarshal → compare with the input (equal.go). Document direction:
 // unmarshal the independently written text → compare with the expected value.
+//
+// Boundary audit: the value tables of model.go carry the boundary classes of
+// every dimension into the product families; the edge families of cases.go
+// (value/edge, doc/edge, doc/zero, value/top-edge, doc/top-edge) guarantee that
+// every field meets every table value, and add boundary lists, present-but-zero
+// and null forms; checkCase adds call sequences (output retained while another
+// value is marshalled, input buffer overwritten and another document decoded
+// before the comparison, the same document decoded twice); codec.go adds the
+// one-sided codec configurations.
 package main
 
 import (
-	"bytes"
 	"fmt"
 	"hash/fnv"
 	"os"
 	"reflect"
+	"strconv"
 	"strings"
 	"sync"
 	"sync/atomic"
@@ -51,12 +60,25 @@ func main() {
 		r.Rule("families value/element, value/top, value/change, doc/element, doc/top, doc/change are complete products of small alphabets " +
 			"(per kind: every subset of optional fields × visible × tags 0/1/3(/empty) × way nodes / members / discussion / comments variants; " +
 			"documents additionally × key order × unknown keys; top level: version absent/number/string × generator/copyright/attribution/license subsets × bounds × unknown keys × position of elements × layout × 10 element lists: no elements key, empty, one rich element per kind, an interleaved mix of all kinds, three bare nodes), " +
-			"each evaluated under every codec configuration; a case is non-trivial when at least one optional field is present; distinct = distinct (case, codec)")
+			"each evaluated under every codec configuration; a case is non-trivial when at least one optional field is present; distinct = distinct (case, codec). " +
+			"Values come from tables that contain the boundary classes (model.go: strings incl. empty / blank / NUL / literal look-alikes / 70 chars, floats incl. 0, +-90, +-180, 7/8/17 decimals, exponent forms, 1e21, MaxFloat64, 5e-324, " +
+			"times incl. 1970, the zero time written out, year 9999 with nanoseconds, after 2262, before 1970, odd zones, numbers 0/1/-1/127/128/2^31-1/2^31/2^32/2^53+1/2^63-1, ids 0/-1/2^31/2^40-1/2^40/2^44/+-2^63); " +
+			"edge families (value/edge, doc/edge: everything present / nothing present / each optional field alone × every table position × every id, boundary and large tag, way-node and member lists, 6 KB strings; " +
+			"doc/zero: every optional-field subset with the absent scalars written as zero values; value/top-edge, doc/top-edge: boundary top-level strings and bounds, version as integer / two-decimal number / empty string, absent keys written as \"\" or null, a 132-element list, a history list with repeated ids). " +
+			"Sequences: marshal twice, marshal something else before the output is used, scribble over the input buffer and (every third case) decode another document before the result is compared, decode after a rejected document (every third), " +
+			"decode the same document twice (small doc families); one-sided codec configurations (only a marshaler / only an unmarshaler installed) on value/top and doc/zero")
 		r.Assume("encoding/json is trusted as the generic parser of the shape oracle and as the backend of the delegating custom codec")
 		r.Assume("reference values and document texts are written by hand side by side in props/c05/model.go; documents are produced by text templates, never by json.Marshal of osm types")
 		r.Assume("domain: unique tag keys, valid UTF-8, finite floats, years 1..9999; documents use exactly the key names of Overpass / the struct tags; unknown keys differ from modelled keys also when case is ignored")
+		r.Assume("not judged because the property text does not decide them: decoding into a value that already holds data, duplicate keys in one object, key names in another letter case, element types the library does not model (Overpass count/area), " +
+			"a number version that is not the shortest decimal form of its value (1.0, 6e-1), null for element fields other than note dates, ids written as strings or floats, lone surrogate escapes")
 
-		cfgs := []codecCfg{stdCodec(), customCodec()}
+		if strconv.IntSize != 64 {
+			kit.Fatalf("C05 value tables hold 64-bit values for int fields; this platform has %d-bit ints", strconv.IntSize)
+		}
+		// the one-sided configurations (only a marshaler, only an unmarshaler installed) run on the
+		// small families only (cases.go smallFamily)
+		cfgs := []codecCfg{stdCodec(), customCodec(), oneSidedCodec(true), oneSidedCodec(false)}
 		if !r.Quick() || r.ReplayPath != "" {
 			for _, f := range extraCodecs {
 				cfgs = append(cfgs, f())
@@ -89,7 +111,11 @@ func main() {
 					}
 					continue
 				}
-				rn.checkCase(c, &slots[0])
+				// the follow-up decode depends on the case number: every residue, so that a replay sees
+				// what the enumeration saw
+				for seq := 0; seq < 3*nKinds; seq++ {
+					rn.checkCase(c, &slots[0], seq)
+				}
 			}
 			return
 		}
@@ -111,8 +137,8 @@ func main() {
 			if ci == 0 {
 				// the smallest members of the space first and one after the other,
 				// so that the replay stored for a key is its minimal reproducer
-				for _, c := range minimalProbes() {
-					rn.checkCase(c, &slot{})
+				for i, c := range minimalProbes() {
+					rn.checkCase(c, &slot{}, i)
 				}
 			}
 			if cfg.Counting != nil {
@@ -121,12 +147,16 @@ func main() {
 			off := 0
 			for _, f := range fams {
 				f, base := f, off
+				if cfg.Reduced && !smallFamily(f.name) {
+					off += f.n
+					continue
+				}
 				r.Par(f.n, func(i int) {
 					if r.TimeUp() {
 						atomic.AddInt64(&rn.skipped, 1)
 						return
 					}
-					rn.checkCase(f.at(i), &slots[base+i])
+					rn.checkCase(f.at(i), &slots[base+i], i)
 				})
 				off += f.n
 			}
@@ -135,6 +165,10 @@ func main() {
 			}
 			if cfg.Counting != nil {
 				snap := cfg.Counting.snapshot()
+				if cfg.Name != "custom" {
+					r.Set("custom_codec_calls_per_helper/"+cfg.Name, snap)
+					continue
+				}
 				r.Set("custom_codec_calls_per_helper", snap)
 				if snap["unmarshal/Tags.UnmarshalJSON"] == 0 {
 					r.Note("Tags.UnmarshalJSON (tag.go) calls encoding/json directly and never consults osm.CustomJSONUnmarshaler; results are the same, so this is reported and not judged")
@@ -309,7 +343,49 @@ func newOf(kind int) interface{} {
 	return &osm.User{}
 }
 
-func (rn *runner) checkCase(c Case, sl *slot) {
+// interferer is marshalled between the production of an output and its use: an output that was handed
+// out must not change when the library marshals something else (shared or pooled output buffers).
+var interferer = &osm.OSM{Version: "9.9", Generator: "interferer", Bounds: &osm.Bounds{MinLat: 9, MaxLat: 9, MinLon: 9, MaxLon: 9},
+	Nodes:     osm.Nodes{{ID: 424242, Lat: 42.42, Lon: 24.24, User: "interferer", Tags: osm.Tags{{Key: "zz-interferer", Value: "left behind"}}}},
+	Ways:      osm.Ways{{ID: 424243, Nodes: osm.WayNodes{{ID: 424244}, {ID: 424245}}, Tags: osm.Tags{{Key: "zz-interferer", Value: "w"}}}},
+	Relations: osm.Relations{{ID: 424246, Members: osm.Members{{Type: osm.TypeNode, Ref: 424247, Role: "zz-interferer"}}}},
+}
+
+// followUps: one of them is decoded after the decode under test and before its result is compared: a
+// result that was handed out must not change when the library decodes something else. They are small
+// (one element each, the kind rotating with the case number) because this runs in every case.
+var followUps = [nKinds]string{
+	`{"version":"7.7","generator":"follow-up","copyright":"follow-up","bounds":{"minlat":7,"minlon":7,"maxlat":7,"maxlon":7},"elements":[{"type":"node","id":77,"lat":7.7,"lon":7.7,"user":"follow-up","uid":77,"version":77,"timestamp":"2007-07-07T07:07:07Z","tags":{"zz-follow-up":"left behind","name":"follow-up"}}]}`,
+	`{"version":7.7,"attribution":"follow-up","license":"follow-up","elements":[{"type":"way","id":77,"user":"follow-up","nodes":[77,78,79,80,81,82,83,84,85],"tags":{"zz-follow-up":"w"}}]}`,
+	`{"elements":[{"type":"relation","id":77,"members":[{"type":"way","ref":77,"role":"follow-up"},{"type":"node","ref":78,"role":"follow-up"},{"type":"node","ref":79,"role":"follow-up"},{"type":"node","ref":80,"role":"follow-up"}],"tags":{"zz-follow-up":"r"}}]}`,
+	`{"elements":[{"type":"changeset","id":77,"user":"follow-up","tags":{"comment":"follow-up"},"discussion":{"comments":[{"user":"follow-up","text":"follow-up"}]}}]}`,
+	`{"elements":[{"type":"note","id":77,"status":"open","date_created":"2007-07-07T07:07:07Z","comments":[{"action":"opened","text":"follow-up","date":"2007-07-07T07:07:07Z"}]}]}`,
+	`{"elements":[{"type":"user","id":77,"name":"follow-up","description":"follow-up","languages":["fo","ll","ow"]}]}`,
+}
+
+// afterDecode: the caller may do what it likes with its input buffer once Unmarshal has returned
+// (encoding/json: an Unmarshaler must copy what it wants to keep), and the library may be used again.
+func afterDecode(cfg codecCfg, buf []byte, seq int) {
+	for i := range buf {
+		buf[i] = '#'
+	}
+	// every third case, like the poison documents (offset by one, so that both also occur alone)
+	if seq%3 == 1 {
+		_ = guardedUnmarshal(cfg, []byte(followUps[seq/3%nKinds]), &osm.OSM{})
+	}
+}
+
+// decodeTwice: families in which every document is decoded a second time into a second fresh value
+// (the same call twice; the first result is retained meanwhile).
+func decodeTwice(family string) bool {
+	switch family {
+	case "doc/change", "doc/edge", "doc/zero", "doc/top-edge":
+		return true
+	}
+	return false
+}
+
+func (rn *runner) checkCase(c Case, sl *slot, seq int) {
 	r := rn.r
 	r.Case(c.fingerprint(rn.cfg.Name), c.nonTrivial())
 	var raised []string
@@ -329,8 +405,15 @@ func (rn *runner) checkCase(c Case, sl *slot) {
 		if !reflect.DeepEqual(before, in) {
 			rep("marshal/input-modified/"+label, "the value differs from the deep copy made before marshalling; output "+clip(string(data)))
 		}
-		if again, err := guardedMarshal(rn.cfg, in); err != nil || !bytes.Equal(again, data) {
-			rep("marshal/not-repeatable/"+label, fmt.Sprintf("second marshal of the same value: err=%v %s vs %s", err, clip(string(again)), clip(string(data))))
+		keep := string(data)
+		if again, err := guardedMarshal(rn.cfg, in); err != nil || string(again) != keep {
+			rep("marshal/not-repeatable/"+label, fmt.Sprintf("second marshal of the same value: err=%v %s vs %s", err, clip(string(again)), clip(keep)))
+		}
+		// the output that was handed out stays what it was while something else is marshalled
+		_, _ = guardedMarshal(rn.cfg, interferer)
+		if string(data) != keep {
+			rep("marshal/output-overwritten/"+label, fmt.Sprintf("the bytes returned by Marshal changed while another value was marshalled: %s, was %s", clip(string(data)), clip(keep)))
+			data = []byte(keep)
 		}
 		outputs = append(outputs, data)
 		if sampleText == "" {
@@ -355,7 +438,10 @@ func (rn *runner) checkCase(c Case, sl *slot) {
 			}
 		}
 		poison(rn.cfg, len(data))
-		if err := guardedUnmarshal(rn.cfg, append([]byte(nil), data...), out); err != nil {
+		buf := append([]byte(nil), data...)
+		err = guardedUnmarshal(rn.cfg, buf, out)
+		afterDecode(rn.cfg, buf, seq)
+		if err != nil {
 			key := "roundtrip/unmarshal-error/" + label
 			if c.hasTopBounds() && strings.Contains(err.Error(), "could not find type") {
 				key = "roundtrip/osm-top-level-bounds"
@@ -377,9 +463,22 @@ func (rn *runner) checkCase(c Case, sl *slot) {
 			kit.Fatalf("C05 document writer produced invalid JSON (%v): %s", err, text)
 		}
 		poison(rn.cfg, len(text))
-		if err := guardedUnmarshal(rn.cfg, []byte(text), out); err != nil {
+		buf := []byte(text)
+		err := guardedUnmarshal(rn.cfg, buf, out)
+		afterDecode(rn.cfg, buf, seq)
+		if err != nil {
 			rep("decode/unmarshal-error/"+label, fmt.Sprintf("valid osmjson rejected: %v: %s", err, clip(text)))
 			return
+		}
+		if decodeTwice(c.Family) {
+			second := reflect.New(reflect.TypeOf(out).Elem()).Interface()
+			if err := guardedUnmarshal(rn.cfg, []byte(text), second); err != nil {
+				rep("decode/second-call/unmarshal-error/"+label, fmt.Sprintf("the same document decoded a second time is rejected: %v: %s", err, clip(text)))
+			} else {
+				for _, m := range diffValues(root, want, second, boundsFree) {
+					rep("decode/second-call/"+m.Path, fmt.Sprintf("second decode of the same document: %s: %s; document %s", m.Path, m.What, clip(text)))
+				}
+			}
 		}
 		for _, m := range diffValues(root, want, out, boundsFree) {
 			rep(mismatchKey("decode", m), fmt.Sprintf("%s: %s; document %s", m.Path, m.What, clip(text)))
@@ -387,21 +486,21 @@ func (rn *runner) checkCase(c Case, sl *slot) {
 	}
 
 	switch c.Family {
-	case "value/element":
+	case "value/element", "value/edge":
 		e := c.Elems[0]
 		v, _ := build(e, true)
 		roundTrip("element-"+kindName[e.Kind], v, newOf(e.Kind), kindTitle[e.Kind], shapeElem)
 		roundTrip("osm", buildOSM(c.Top, c.Elems, true), &osm.OSM{}, "OSM", shapeDoc)
-	case "value/top":
+	case "value/top", "value/top-edge":
 		roundTrip("osm", buildOSM(c.Top, c.Elems, true), &osm.OSM{}, "OSM", shapeDoc)
 	case "value/change":
 		roundTrip("change", buildChange(c.Top, c.Blocks, true), &osm.Change{}, "Change", shapeChange)
-	case "doc/element":
+	case "doc/element", "doc/edge", "doc/zero":
 		e := c.Elems[0]
 		want, _ := build(e, false)
 		decode("element-"+kindName[e.Kind], writeElem(e, false), want, newOf(e.Kind), kindTitle[e.Kind], false)
 		decode("osm", writeDoc(c.Top, c.Elems), buildOSM(c.Top, c.Elems, false), &osm.OSM{}, "OSM", c.Top.Bounds)
-	case "doc/top":
+	case "doc/top", "doc/top-edge":
 		decode("osm", writeDoc(c.Top, c.Elems), buildOSM(c.Top, c.Elems, false), &osm.OSM{}, "OSM", c.Top.Bounds)
 	case "doc/change":
 		decode("change", writeChangeDoc(c.Top, c.Blocks), buildChange(c.Top, c.Blocks, false), &osm.Change{}, "Change", true)
@@ -442,21 +541,30 @@ func (rn *runner) checkCodecPaths() {
 	c := codecPathsCase()
 	rn.r.Case(c.fingerprint(rn.cfg.Name), true)
 	cc := &countingCodec{}
-	osm.CustomJSONMarshaler, osm.CustomJSONUnmarshaler = cc, cc
+	osm.CustomJSONMarshaler, osm.CustomJSONUnmarshaler = nil, nil
+	if rn.cfg.Sides&1 != 0 {
+		osm.CustomJSONMarshaler = cc
+	}
+	if rn.cfg.Sides&2 != 0 {
+		osm.CustomJSONUnmarshaler = cc
+	}
 	defer rn.cfg.Install()
 	in := buildOSM(c.Top, c.Elems, true)
-	data, err := rn.cfg.Marshal(in)
+	data, err := guardedMarshal(rn.cfg, in)
 	if err != nil {
 		rn.r.Violation("codec/paths-marshal-error", err.Error(), c)
 		return
 	}
 	var back osm.OSM
-	if err := rn.cfg.Unmarshal(data, &back); err != nil {
+	if err := guardedUnmarshal(rn.cfg, data, &back); err != nil {
 		rn.r.Violation("codec/paths-unmarshal-error", err.Error(), c)
 		return
 	}
 	snap := cc.snapshot()
 	for _, p := range requiredPaths {
+		if strings.HasPrefix(p, "marshal/") && rn.cfg.Sides&1 == 0 || strings.HasPrefix(p, "unmarshal/") && rn.cfg.Sides&2 == 0 {
+			continue
+		}
 		if snap[p] == 0 {
 			rn.r.Violation("codec/not-consulted/"+p, fmt.Sprintf("installed codec was never called by %s while marshalling and decoding a container with all kinds (calls: %v)", p, snap), c)
 		}
